@@ -117,8 +117,49 @@ fn c10_in_domain(plan: &Plan) -> bool {
 			_ => {}
 		}
 	}
-	// every write must be inside a transaction that begins and commits (timestamps are
-	// derived from the commit count)
+	// timestamps per key must be non-decreasing in commit order (the property's domain).
+	// Explicit timestamps are generated relative to the commit count and a write without one
+	// takes the commit time (the simulated clock moves 1000 ns per commit), so a reduction
+	// that drops commits can put a commit-time write below an earlier explicit timestamp.
+	let mut clock: u64 = 0;
+	let mut pending: std::collections::BTreeMap<u8, Vec<(u16, Option<u64>)>> = Default::default();
+	let mut last_ts: std::collections::BTreeMap<u16, u64> = Default::default();
+	for s in &plan.steps {
+		match s {
+			Step::Begin { a, .. } => {
+				pending.insert(*a, Vec::new());
+			}
+			Step::Rollback { a } | Step::DropTxn { a } => {
+				pending.remove(a);
+			}
+			Step::Set { a, k, ts, .. } | Step::Delete { a, k, ts } | Step::SoftDelete { a, k, ts } => {
+				if let Some(v) = pending.get_mut(a) {
+					v.push((*k, *ts));
+				}
+			}
+			Step::Replace { a, k, .. } => {
+				if let Some(v) = pending.get_mut(a) {
+					v.push((*k, None));
+				}
+			}
+			Step::Advance { ns } => clock += *ns,
+			Step::Commit { a, .. } => {
+				if let Some(ws) = pending.remove(a) {
+					clock += 1000;
+					for (k, ts) in ws {
+						let t = ts.unwrap_or(clock);
+						if let Some(prev) = last_ts.get(&k) {
+							if t < *prev {
+								return false;
+							}
+						}
+						last_ts.insert(k, t);
+					}
+				}
+			}
+			_ => {}
+		}
+	}
 	true
 }
 
